@@ -101,9 +101,28 @@ func OracleC17(w *W2Run) []Violation {
 			w.Out.count("probe/final_round_all_instances_served", 1)
 		}
 	}
-	// containment of the ordinary requests (a panic in a request that was not built to panic, ...)
+	if w.RestoreErr != "" {
+		add("mgmt-panic", "restore", "re-installing the initial rules before the final probe round failed: "+firstLine(w.RestoreErr))
+	}
+	// containment of the ordinary requests (a panic in a request that was not built to panic, ...) and
+	// evidence of two in-flight requests on one instance.  When admins change the rule set during the
+	// run only the clauses that do not depend on the rule set are kept.
 	for _, v := range CheckPoolCalls(w) {
+		if w.NAdmins > 0 {
+			switch v.Clause {
+			case "foreign-request-data", "stray-event", "api-panic", "event-after-return":
+			default:
+				continue
+			}
+		}
 		out = append(out, v)
+	}
+	for ai, ops := range w.Ops {
+		for k, op := range ops {
+			if r := w.OpRes[ai][k]; r.Panicked != "" {
+				add("mgmt-panic", opKindNames[op.Kind], fmt.Sprintf("management operation %s panicked: %s", op, firstLine(r.Panicked)))
+			}
+		}
 	}
 	return out
 }
